@@ -619,6 +619,189 @@ func translateNewHandler(fd *ast.FuncDecl) []string {
 	return out
 }
 
+// ---------------------------------------------------------------- the release side
+
+// relTr translates Handler.close / closeWithErrors / commit (and ControlFile.Close / CloseWithErrors) into the ordered
+// list of their release steps with what happens to the error of each step (stop / collect / ignore).
+type relTr struct {
+	fn         string
+	recv       string // "h" or "m"
+	updateArm  bool   // which arm of `if h.openType == ForUpdate { … } else { … }` is followed
+	out        []string
+	sawForUpd  bool
+	finalKinds []string
+}
+
+const createdGuard = "h.openType == ForCreate && h.created && Exists(h.path)"
+
+func (t *relTr) classify(call ast.Expr, inCreated, inExists bool) string {
+	c := src(call)
+	if t.recv == "m" {
+		switch c {
+		case "file.Close(m.fp)":
+			return ".closeFd"
+		case "os.Remove(m.path)":
+			if !inExists {
+				die("%s: os.Remove(m.path) outside `if Exists(m.path)`", t.fn)
+			}
+			return ".removeFile"
+		}
+		return ""
+	}
+	switch c {
+	case "file.Close(h.fp)":
+		return ".closeFp"
+	case "file.Close(h.tempFile.fp)":
+		return ".closeTempFp"
+	case "os.Rename(h.tempFile.path, h.path)":
+		return ".renameTemp"
+	case "os.Remove(h.path)":
+		if !inCreated {
+			die("%s: os.Remove(h.path) outside `if %s`", t.fn, createdGuard)
+		}
+		return ".removeCreated"
+	}
+	for f, k := range cfOfField {
+		if c == "h."+f+".Close()" || c == "h."+f+".CloseWithErrors()" {
+			return ".closeCF " + k
+		}
+	}
+	return ""
+}
+
+func (t *relTr) isBookkeeping(s ast.Stmt) bool {
+	a, ok := s.(*ast.AssignStmt)
+	if !ok || len(a.Lhs) != 1 || len(a.Rhs) != 1 {
+		return false
+	}
+	l, r := src(a.Lhs[0]), src(a.Rhs[0])
+	switch l {
+	case "h.fp", "h.tempFile", "h.lockFile", "h.rlockFile", "h.tempFile.fp":
+		return r == "nil"
+	case "h.closed":
+		return r == "true"
+	}
+	return false
+}
+
+func (t *relTr) stmts(list []ast.Stmt, inCreated, inExists bool) {
+	for _, s := range list {
+		if isVerifPoint(s) || t.isBookkeeping(s) {
+			continue
+		}
+		switch v := s.(type) {
+		case *ast.DeclStmt:
+			if src(v) != "var errs []error" {
+				die("%s: unsupported declaration: %s", t.fn, src(v))
+			}
+		case *ast.ReturnStmt:
+			r := src(v)
+			if r != "return nil" && r != "return NewForcedUnlockError(errs)" && r != "return errs" {
+				die("%s: unsupported return: %s", t.fn, r)
+			}
+			t.finalKinds = append(t.finalKinds, r)
+		case *ast.ExprStmt:
+			if op := t.classify(v.X, inCreated, inExists); op != "" {
+				t.out = append(t.out, "⟨"+op+", .ignore⟩")
+				continue
+			}
+			die("%s: unsupported statement: %s", t.fn, src(v))
+		case *ast.AssignStmt:
+			if len(v.Lhs) == 1 && isIdent(v.Lhs[0], "_") && len(v.Rhs) == 1 {
+				if op := t.classify(v.Rhs[0], inCreated, inExists); op != "" {
+					t.out = append(t.out, "⟨"+op+", .ignore⟩")
+					continue
+				}
+			}
+			die("%s: unsupported assignment: %s", t.fn, src(v))
+		case *ast.IfStmt:
+			cond := src(v.Cond)
+			if v.Init == nil {
+				switch {
+				case cond == "h.closed":
+					if v.Else != nil || len(v.Body.List) != 1 || src(v.Body.List[0]) != "return nil" {
+						die("%s: unsupported `if h.closed`", t.fn)
+					}
+				case cond == "h.fp != nil" || cond == "h.tempFile.fp != nil" || cond == "m != nil" || cond == "m.fp != nil":
+					if v.Else != nil {
+						die("%s: unsupported else of `if %s`", t.fn, cond)
+					}
+					t.stmts(v.Body.List, inCreated, inExists)
+				case cond == createdGuard:
+					if v.Else != nil {
+						die("%s: unsupported else of `if %s`", t.fn, cond)
+					}
+					t.stmts(v.Body.List, true, inExists)
+				case cond == "Exists(m.path)":
+					if v.Else != nil {
+						die("%s: unsupported else of `if %s`", t.fn, cond)
+					}
+					t.stmts(v.Body.List, inCreated, true)
+				case cond == "h.openType == ForUpdate":
+					t.sawForUpd = true
+					if t.updateArm {
+						t.stmts(v.Body.List, inCreated, inExists)
+					} else if v.Else != nil {
+						b, ok := v.Else.(*ast.BlockStmt)
+						if !ok {
+							die("%s: unsupported else-if", t.fn)
+						}
+						t.stmts(b.List, inCreated, inExists)
+					}
+				default:
+					die("%s: unsupported if: %s", t.fn, cond)
+				}
+				continue
+			}
+			// if err := CALL; err != nil { return err | errs = append(errs, err…) } [else { bookkeeping }]
+			a, ok := v.Init.(*ast.AssignStmt)
+			if !ok || len(a.Lhs) != 1 || len(a.Rhs) != 1 || cond != src(a.Lhs[0])+" != nil" {
+				die("%s: unsupported if: %s", t.fn, src(v))
+			}
+			ev := src(a.Lhs[0])
+			op := t.classify(a.Rhs[0], inCreated, inExists)
+			if op == "" {
+				die("%s: a call that is not a release step: %s", t.fn, src(a.Rhs[0]))
+			}
+			if len(v.Body.List) != 1 {
+				die("%s: unsupported error block: %s", t.fn, src(v.Body))
+			}
+			how := ""
+			switch b := src(v.Body.List[0]); b {
+			case "return " + ev:
+				how = ".stop"
+			case "errs = append(errs, " + ev + ")", "errs = append(errs, " + ev + "...)":
+				how = ".collect"
+			default:
+				die("%s: unsupported error block: %s", t.fn, b)
+			}
+			if v.Else != nil {
+				b, ok := v.Else.(*ast.BlockStmt)
+				if !ok {
+					die("%s: unsupported else-if", t.fn)
+				}
+				for _, e := range b.List {
+					if !t.isBookkeeping(e) {
+						die("%s: unsupported statement in an else block: %s", t.fn, src(e))
+					}
+				}
+			}
+			t.out = append(t.out, "⟨"+op+", "+how+"⟩")
+		default:
+			die("%s: unsupported statement: %s", t.fn, src(s))
+		}
+	}
+}
+
+func translateRelease(fd *ast.FuncDecl, recv string, updateArm bool) []string {
+	t := &relTr{fn: fd.Name.Name, recv: recv, updateArm: updateArm}
+	t.stmts(fd.Body.List, false, false)
+	if len(t.finalKinds) == 0 {
+		die("%s: no final return", t.fn)
+	}
+	return t.out
+}
+
 func leanTerms(xs []string) string {
 	return "[" + strings.Join(xs, ", ") + "]"
 }
@@ -652,8 +835,9 @@ func retryMain() {
 
 	fmt.Println("-- GENERATED by /verif/extract/fsproto -retry from lib/file/control_file.go and lib/file/handler.go — do not edit.")
 	fmt.Println("import Csvq.Model.Retry")
+	fmt.Println("import Csvq.Model.Release")
 	fmt.Println("namespace Csvq.Gen.Retry")
-	fmt.Println("open Csvq.Retry Csvq.Retry.CF")
+	fmt.Println("open Csvq.Retry Csvq.Retry.CF Csvq.Release")
 	fmt.Println()
 	emit := func(name, typ, doc string, xs []string) {
 		fmt.Printf("/-- %s -/\ndef %s : List %s :=\n  %s\n\n", doc, name, typ, leanTerms(xs))
@@ -673,5 +857,97 @@ func retryMain() {
 	emit("handlerCreate", "HStmt", "Handler.CreateControlFileContext", hcreate)
 	emit("newHandlerForRead", "NStmt", "NewHandlerForRead", forRead)
 	emit("newHandlerForUpdate", "NStmt", "NewHandlerForUpdate", forUpdate)
+	emit("newHandlerForCreate", "CStmt", "NewHandlerForCreate (does not wait)", translateNewHandlerCreate(findFunc(hd, "", "NewHandlerForCreate")))
+	emit("releaseClose", "RStep", "Handler.close: the release steps in source order, with what an error of the step does", translateRelease(findFunc(hd, "Handler", "close"), "h", false))
+	emit("releaseCloseWithErrors", "RStep", "Handler.closeWithErrors", translateRelease(findFunc(hd, "Handler", "closeWithErrors"), "h", false))
+	emit("releaseCommitUpdate", "RStep", "Handler.commit of a handler opened for update", translateRelease(findFunc(hd, "Handler", "commit"), "h", true))
+	emit("releaseCommitOther", "RStep", "Handler.commit of any other handler", translateRelease(findFunc(hd, "Handler", "commit"), "h", false))
+	emit("cfClose", "CStep", "ControlFile.Close", translateRelease(findFunc(cf, "ControlFile", "Close"), "m", false))
+	emit("cfCloseWithErrors", "CStep", "ControlFile.CloseWithErrors", translateRelease(findFunc(cf, "ControlFile", "CloseWithErrors"), "m", false))
 	fmt.Println("end Csvq.Gen.Retry")
+}
+
+// NewHandlerForCreate: no waiting — one TryCreateLockFile, then the table's file
+func translateNewHandlerCreate(fd *ast.FuncDecl) []string {
+	fn := fd.Name.Name
+	var out []string
+	list := fd.Body.List
+	tryFns := map[string]string{"TryCreateLockFile": ".lock", "TryCreateRLockFile": ".rlock", "TryCreateTempFile": ".temp"}
+	cfVar := map[string]string{}
+	errCheck := func(i int) bool {
+		if i+1 >= len(list) {
+			die("%s: a call without error check", fn)
+		}
+		ifs, ok := list[i+1].(*ast.IfStmt)
+		if !ok || ifs.Init != nil || ifs.Else != nil || src(ifs.Cond) != "err != nil" {
+			die("%s: the call is not followed by `if err != nil`: %s", fn, src(list[i+1]))
+		}
+		return handlerErrReturn(fn, ifs.Body.List)
+	}
+	for i := 0; i < len(list); i++ {
+		s := list[i]
+		if isVerifPoint(s) {
+			continue
+		}
+		switch v := s.(type) {
+		case *ast.AssignStmt:
+			l, r := src(v.Lhs[0]), src(v.Rhs[0])
+			n, c := callName(v.Rhs[0])
+			switch {
+			case len(v.Lhs) == 1 && l == "h" && strings.HasPrefix(r, "&Handler{"):
+				if strings.Contains(r, "File") || strings.Contains(r, "created") {
+					die("%s: the handler starts with a control file or as created: %s", fn, r)
+				}
+			case len(v.Lhs) == 2 && tryFns[n] != "" && len(c.Args) == 1 && src(c.Args[0]) == "h.path":
+				cfVar[l] = tryFns[n]
+				out = append(out, fmt.Sprintf(".tryDirect %s %s", tryFns[n], boolLit(errCheck(i))))
+				i++
+			case len(v.Lhs) == 1 && strings.HasPrefix(l, "h.") && cfOfField[strings.TrimPrefix(l, "h.")] != "":
+				k := cfOfField[strings.TrimPrefix(l, "h.")]
+				if cfVar[r] != k {
+					die("%s: %s: the field and the control file are of different kinds", fn, src(v))
+				}
+				out = append(out, ".recordDirect "+k)
+			case len(v.Lhs) == 2 && r == "file.Create(h.path)":
+				out = append(out, ".createData "+boolLit(errCheck(i)))
+				i++
+			case len(v.Lhs) == 1 && l == "h.fp" && r == "fp":
+			case len(v.Lhs) == 1 && l == "h.created" && r == "true":
+				out = append(out, ".markCreated")
+			default:
+				die("%s: unsupported assignment: %s", fn, src(v))
+			}
+		case *ast.IfStmt:
+			if v.Else != nil || v.Init != nil {
+				die("%s: unsupported if: %s", fn, src(v))
+			}
+			cond := src(v.Cond)
+			switch {
+			case cond == "Exists(h.path)":
+				if handlerErrReturn(fn, v.Body.List) {
+					die("%s: release in the existence check", fn)
+				}
+				out = append(out, ".existsReturn")
+			case strings.HasPrefix(cond, "h.") && strings.HasSuffix(cond, " != nil") && cfOfField[strings.TrimSuffix(strings.TrimPrefix(cond, "h."), " != nil")] != "":
+				if len(v.Body.List) != 1 {
+					die("%s: unsupported guard: %s", fn, src(v))
+				}
+				r, ok := v.Body.List[0].(*ast.ReturnStmt)
+				if !ok || len(r.Results) != 2 || isIdent(r.Results[1], "nil") {
+					die("%s: unsupported guard: %s", fn, src(v))
+				}
+				out = append(out, ".heldGuard "+cfOfField[strings.TrimSuffix(strings.TrimPrefix(cond, "h."), " != nil")])
+			default:
+				die("%s: unsupported if: %s", fn, src(v))
+			}
+		case *ast.ReturnStmt:
+			if len(v.Results) != 2 || !isIdent(v.Results[0], "h") || !isIdent(v.Results[1], "nil") || i != len(list)-1 {
+				die("%s: unsupported return: %s", fn, src(v))
+			}
+			out = append(out, ".returnOk")
+		default:
+			die("%s: unsupported statement: %s", fn, src(s))
+		}
+	}
+	return out
 }
